@@ -338,6 +338,18 @@ Print Assumptions C05_vbk_blocks_pow_sound.
 Theorem C05_vbk_plausibility_sound :
   forall (forkHeight startTime blockTime : Z) (enabled : bool) (height timestamp : Z),
   vbk_plausibility forkHeight startTime blockTime enabled height timestamp = 0 ->
-  forkHeight <= height /\ u32 (height ÷ 8000) <= 4096 /\ (enabled = true -> startTime <= timestamp).
+  forkHeight <= height /\ u32 (height ÷ 8000) < 4096 /\ (enabled = true -> startTime <= timestamp).
 Proof. exact @vbk_plausibility_sound. Qed.
 Print Assumptions C05_vbk_plausibility_sound.
+
+Theorem C05_vbk_plausibility_epoch_in_table :
+  forall (forkHeight startTime blockTime : Z) (enabled : bool) (height timestamp : Z),
+  vbk_plausibility forkHeight startTime blockTime enabled height timestamp = 0 ->
+  0 <= u32 (height ÷ 8000) < VB.Gen.Consts.VBK_MAX_CALCULATED_EPOCHS_SIZE.
+Proof. exact @vbk_plausibility_epoch_in_table. Qed.
+Print Assumptions C05_vbk_plausibility_epoch_in_table.
+
+Theorem C05_vbk_plausibility_epoch_v0_refuted :
+  exists height, vbk_plausibility_v0 0 height = 0 /\ ~ u32 (height ÷ 8000) < 4096.
+Proof. exact vbk_plausibility_epoch_v0_refuted. Qed.
+Print Assumptions C05_vbk_plausibility_epoch_v0_refuted.
